@@ -108,7 +108,32 @@ def h_eq_raw(ctx: Any, n: int, m: int, twin: bool = False) -> None:
     ctx.check(got_r == want, 'C12.eq[partial-Instantiate,reversed]', lambda: f'{b!r} == {a!r} gives {got_r}, expansions equal: {want}')
 
 
-def h_ops(ctx: Any, n: int, prof: str, twin: bool = False) -> None:
+def _battery(q: Any, x: Any, plug: Any) -> None:
+    """every operation of the property once, results thrown away (warm-up on a sibling pattern)"""
+    from proof_generation import pattern as P
+
+    calls = [
+        lambda: q == q,
+        lambda: hash(q),
+        lambda: str(q),
+        lambda: q.evar_is_free(x),
+        lambda: q.metavars(),
+        lambda: q.apply_esubst(x, plug),
+        lambda: q.apply_ssubst(x, plug),
+        lambda: q.instantiate({0: plug}),
+        lambda: [c.unwrap(q) for c in (P.Implies, P.App)],
+        lambda: [c.deconstruct(q) for c in (P.Exists, P.Mu, P.EVar, P.SVar, P.Symbol)],
+        lambda: P.match_single(P.Implies(P.MetaVar(0), P.MetaVar(1)), q),
+        lambda: P.match_single(q, q),
+    ]
+    for c in calls:
+        try:
+            c()
+        except Exception:
+            pass
+
+
+def h_ops(ctx: Any, n: int, prof: str, history: bool = False, twin: bool = False) -> None:
     from proof_generation import pattern as P
 
     pr = _prof(prof)
@@ -117,6 +142,11 @@ def h_ops(ctx: Any, n: int, prof: str, twin: bool = False) -> None:
     te = O.expand(p)
     pe = gens.from_term(te)
     x = ctx.int('x')
+    if history:
+        # the answers must not depend on what was asked before: the whole battery runs first on the siblings of p
+        # (other constructors / rotated notation keys) with the same variable and a sibling plug
+        for sib in (gens.kind_swap(p), gens.key_swap(p)):
+            _battery(sib, x, P.SVar(x))
     ctx.count('reached')
     ctx.sample({'p': repr(p), 'x': repr(x)})
     if twin:
@@ -205,6 +235,8 @@ def levels(tier: str) -> list[dict]:
             if n == 1 and pn in ('defn', 'kore'):
                 continue
             L.append(dict(label=f'ops/{pn}/n={n}', module=M, fn='h_ops', kwargs=dict(n=n, prof=pn), budget_s=bud, required=n <= 3, twin=(n >= 2)))
+    for pn, n in ([('prop', 2), ('prop', 3), ('binder', 3), ('rawops', 3)] if q else [('prop', 2), ('prop', 3), ('binder', 3), ('rawops', 3), ('prop2', 3), ('kore', 3), ('binder', 4), ('rawops', 4)]):
+        L.append(dict(label=f'ops-after-the-same-operations-on-sibling-patterns/{pn}/n={n}', module=M, fn='h_ops', kwargs=dict(n=n, prof=pn, history=True), budget_s=bud, required=True, twin=False))
     L.append(dict(label='triples/small/n<=2', module=M, fn='h_trans', kwargs=dict(n=2 if q else 3, prof='small'), budget_s=bud, required=False))
     return L
 
